@@ -36,6 +36,8 @@ def ensure_impl_on_path():
     if p not in sys.path:
         sys.path.insert(0, p)
     os.environ['PYCEL_VERIF'] = '1'
+    import logging
+    logging.getLogger('pycel').setLevel(logging.CRITICAL)     # formula errors are data here, not noise
 
 
 # ------------------------------------------------------------------ sexp
